@@ -61,9 +61,9 @@ Section Generic.
       - destruct (String.eqb dest (od_dest e)); [congruence|discriminate].
       - injection Em as <-. reflexivity. }
     destruct (od_action e), (it_value it) as [s|]; try discriminate.
-    - destruct (option_like s); [discriminate|]. destruct (convert ty choices s); [|discriminate].
+    - destruct (convert ty choices s); [|discriminate].
       injection H as <-. simpl. rewrite ns_get_set_other by exact Hn. congruence.
-    - destruct (option_like s); [discriminate|]. injection H as <-. simpl.
+    - injection H as <-. simpl.
       rewrite ns_get_set_other by exact Hn. congruence.
     - injection H as <-. simpl. rewrite ns_get_set_other by exact Hn. congruence.
   Qed.
@@ -72,12 +72,11 @@ Section Generic.
   Lemma parse_item_store st it st' e ty ch :
     parse_item descs st it = Some st' -> find_desc descs (it_flag it) = Some e -> od_action e = AStore ty ch ->
     exists s, it_value it = Some s /\ ns_get (p_ns st') (od_dest e) = Some (VStr s)
-              /\ option_like s = false /\ convert ty ch s = Some (VStr s).
+              /\ convert ty ch s = Some (VStr s).
   Proof.
     unfold parse_item. intros H He Ha. rewrite He in H.
     destruct (mutex_ok e (it_value it) st) as [st1|]; [|discriminate]. rewrite Ha in H.
     destruct (it_value it) as [s|]; [|discriminate].
-    destruct (option_like s) eqn:Eo; [discriminate|].
     destruct (convert ty ch s) as [v|] eqn:Ec; [|discriminate].
     injection H as <-. exists s. simpl. rewrite ns_get_set_same.
     assert (Hv : v = VStr s).
@@ -224,7 +223,7 @@ Section Generic.
       - destruct (String.eqb dest (od_dest e)); [congruence|discriminate].
       - injection Em as <-. reflexivity. }
     rewrite Ha in H. destruct (it_value it) as [s|]; [|discriminate].
-    destruct (option_like s); [discriminate|]. injection H as <-. exists s. split; [reflexivity|].
+    injection H as <-. exists s. split; [reflexivity|].
     simpl. rewrite ns_get_set_same, Hns. simpl. unfold list_of.
     destruct (ns_get (p_ns st) (od_dest e)) as [[| |l|]|]; reflexivity.
   Qed.
